@@ -2,11 +2,11 @@
 # usage: confirm_seed.sh <ID>  — confirm a candidate seeded change delivered in /tmp/seed2/<ID> (patch.diff, demo.cpp)
 # against its scratch worktree /tmp/seedwt_<ID>: the patch is what the worktree contains, the repo's tests pass
 # with it, the demo exits 0 on /repo's headers and non-zero on the changed headers.
-ID=$1; W=/tmp/seedwt_$ID; S=/tmp/seed2/$ID
-git -C $W diff > /tmp/seed2/$ID.wt.diff
-cmp -s /tmp/seed2/$ID.wt.diff $S/patch.diff && echo "patch == worktree diff" || echo "patch differs from worktree diff (using worktree state)"
+ID=$1; W=/tmp/seedwt_$ID; S=${SEEDBASE:-/tmp/seed2}/$ID
+git -C $W diff > ${SEEDBASE:-/tmp/seed2}/$ID.wt.diff
+cmp -s ${SEEDBASE:-/tmp/seed2}/$ID.wt.diff $S/patch.diff && echo "patch == worktree diff" || echo "patch differs from worktree diff (using worktree state)"
 git -C /repo apply --check $S/patch.diff && echo "applies to /repo HEAD"
-g++ -std=c++17 -O1 -I/repo $S/demo.cpp -o /tmp/seed2/$ID.orig 2>/dev/null && (cd /tmp/seed2 && timeout 120 ./$ID.orig >/dev/null 2>&1; echo "demo original: exit $?")
-g++ -std=c++17 -O1 -I$W $S/demo.cpp -o /tmp/seed2/$ID.mod 2>/dev/null && (cd /tmp/seed2 && timeout 120 ./$ID.mod >/dev/null 2>&1; echo "demo modified: exit $?")
+g++ -std=c++17 -O1 -I/repo $S/demo.cpp -o ${SEEDBASE:-/tmp/seed2}/$ID.orig 2>/dev/null && (cd ${SEEDBASE:-/tmp/seed2} && timeout 120 ./$ID.orig >/dev/null 2>&1; echo "demo original: exit $?")
+g++ -std=c++17 -O1 -I$W $S/demo.cpp -o ${SEEDBASE:-/tmp/seed2}/$ID.mod 2>/dev/null && (cd ${SEEDBASE:-/tmp/seed2} && timeout 120 ./$ID.mod >/dev/null 2>&1; echo "demo modified: exit $?")
 cmake -G Ninja -B $W/_build -S $W -DELFIO_BUILD_TESTS=ON -DFETCHCONTENT_SOURCE_DIR_GOOGLETEST=/usr/src/googletest -DFETCHCONTENT_FULLY_DISCONNECTED=ON -DCMAKE_BUILD_TYPE=RelWithDebInfo >/dev/null 2>&1 && cmake --build $W/_build >/dev/null 2>&1 && ctest --test-dir $W/_build --timeout 900 2>&1 | grep "tests passed\|tests failed"
-rm -rf $W/_build /tmp/seed2/$ID.orig /tmp/seed2/$ID.mod /tmp/seed2/$ID.wt.diff
+rm -rf $W/_build ${SEEDBASE:-/tmp/seed2}/$ID.orig ${SEEDBASE:-/tmp/seed2}/$ID.mod ${SEEDBASE:-/tmp/seed2}/$ID.wt.diff
